@@ -128,142 +128,239 @@ def main():
         res['edge'].append(out)
 
     # ------------------------------------------------------- whole runs
+    HEXFACES = ((4, 5, 6, 7), (5, 4, 0, 1), (6, 5, 1, 2), (7, 6, 2, 3), (4, 7, 3, 0), (3, 2, 1, 0))
+
+    def build_mesh(job):
+        """tet/hex/prism/pyr/hexpyr brick or thin tet plate with exact (integer / dyadic)
+        coordinates; returns the femio mesh"""
+        kind = job['kind']
+        n = job['n']
+        if kind == 'tetplate':
+            # structured plate, every block cut into 6 tets sharing the block diagonal
+            nx, ny, nz = n
+
+            def nid(i, j, k):
+                return (i * (ny + 1) + j) * (nz + 1) + k + 1
+            lat = np.array([[i, j, k] for i in range(nx + 1) for j in range(ny + 1)
+                            for k in range(nz + 1)], np.int64)
+            old_ids = list(range(1, len(lat) + 1))
+            split = [[0, 1, 2, 6], [0, 2, 3, 6], [0, 3, 7, 6], [0, 7, 4, 6], [0, 4, 5, 6], [0, 5, 1, 6]]
+            conn = []
+            for i in range(nx):
+                for j in range(ny):
+                    for k in range(nz):
+                        h = [nid(i, j, k), nid(i + 1, j, k), nid(i + 1, j + 1, k), nid(i, j + 1, k),
+                             nid(i, j, k + 1), nid(i + 1, j, k + 1), nid(i + 1, j + 1, k + 1),
+                             nid(i, j + 1, k + 1)]
+                        conn += [[h[a] for a in t] for t in split]
+            conn = np.array(conn, np.int64)
+            types = ['tet'] * len(conn)
+        else:
+            base = kind if kind in ('hex', 'tet') else 'hex'
+            fd = femio.generate_brick(base, *n)
+            lat = np.rint(fd.nodes.data * np.array(n)).astype(np.int64)
+            old_ids = [int(i) for i in fd.nodes.ids]
+            conn = np.array(fd.elements.data, np.int64)
+            types = [base] * len(conn)
+        st = job.get('stretch')
+        if st:
+            lat = lat * np.array(st, np.int64)
+        cr = job.get('crease')
+        if cr:
+            # gently creased brick: z scaled by a piecewise linear function of x with its
+            # kink on the grid line i0; every element face stays planar
+            lat = np.stack([lat[:, 0] * cr['Dx'], lat[:, 1] * cr['Dy'],
+                            lat[:, 2] * (cr['D'] + cr['s'] * np.abs(lat[:, 0] - cr['i0']))], axis=1)
+        xyz = (lat @ np.array(job['M'], np.int64).T + np.array(job['t'], np.int64)).astype(np.float64)
+        rows = [tuple(int(v) for v in r) for r in conn]
+        if kind == 'prism':
+            rows = [r for (a, b, c, d, e, f, g, h) in rows for r in ((a, b, c, e, f, g), (a, c, d, e, g, h))]
+            types = ['prism'] * len(rows)
+        elif kind in ('pyr', 'hexpyr'):
+            # hex -> six pyramids on its faces, apex = new centre node (mean of the 8
+            # corners: exact dyadic coordinates); hexpyr: every other hex stays a hex
+            row_of = {i: k for k, i in enumerate(old_ids)}
+            nxt = max(old_ids) + 1
+            new_rows, types, centres = [], [], []
+            for q, hexrow in enumerate(rows):
+                if kind == 'hexpyr' and q % 2 == 0:
+                    new_rows.append(hexrow)
+                    types.append('hex')
+                    continue
+                m = nxt
+                nxt += 1
+                centres.append(xyz[[row_of[v] for v in hexrow]].sum(axis=0) / 8)
+                for F in HEXFACES:
+                    new_rows.append(tuple(hexrow[v] for v in reversed(F)) + (m,))
+                    types.append('pyr')
+                old_ids.append(m)
+            rows = new_rows
+            if centres:
+                xyz = np.vstack([xyz, np.array(centres)])
+        # drop cells (voids, several components, non-convex bodies, unreferenced nodes)
+        drop = set(job.get('drop') or [])
+        keep = [q for q in range(len(rows)) if q not in drop]
+        rows = [rows[q] for q in keep]
+        types = [types[q] for q in keep]
+        xyz = xyz * float(job['scale'])
+        cd = job.get('coord_dtype', 'float64')
+        xyz = xyz.astype(cd)
+        ids = np.array(job['node_ids'], np.int64) if job.get('node_ids') else np.array(old_ids, np.int64)
+        idmap = dict(zip(old_ids, [int(i) for i in ids]))
+        perm = np.array(job['node_perm'], np.int64) if job.get('node_perm') else np.arange(len(ids))
+        eids = job.get('elem_ids') or list(range(1, len(rows) + 1))
+        eids = eids[:len(rows)]
+        blocks = {}
+        for tp in sorted(set(types)):
+            sel = [q for q in range(len(rows)) if types[q] == tp]
+            blocks[tp] = femio.FEMAttribute(
+                tp, np.array([eids[q] for q in sel], np.int64),
+                np.array([[idmap[v] for v in rows[q]] for q in sel], np.int64))
+        return femio.FEMData(nodes=femio.FEMAttribute('NODE', ids[perm], xyz[perm]),
+                             elements=femio.FEMElementalAttribute('ELEMENT', blocks))
+
+    def record_output(mc, out):
+        o = mc.output_fem_data
+        fdat = o.elemental_data['face']['polyhedron'].data
+        dec = [decode_poly(p) for p in fdat]
+        out['out_polys'] = [d[0] for d in dec]
+        out['out_wellformed'] = all(d[1] for d in dec)
+        out['out_pos'] = [[ratio(c) for c in row] for row in o.nodes.data]
+        out['out_node_ids'] = [int(i) for i in o.nodes.ids]
+        out['out_elem_ids'] = [int(i) for i in o.elements.ids]
+        out['out_conn'] = [[int(v) for v in row] for row in o.elements.data]
+        out['node_conv'] = [int(v) for v in mc.node_conv]
+        out['elem_conv'] = [int(v) for v in mc.elem_conv]
+        # the method the docstring names for obtaining the result
+        o2 = mc.calculate_compressed_fem_data()
+        out['recomputed_same_object'] = o2 is o
+        return o
+
+    def make_x(t, n_src):
+        vals = np.array(t['x'][:n_src * t['ncomp']], np.float64)
+        dt = t.get('dtype', 'float64')
+        if dt == 'bool':
+            vals = (vals.astype(np.int64) % 2 != 0) if t['xmode'] != 'const' else (vals * 0 + 1 != 0)
+        else:
+            vals = vals.astype(dt)
+        return vals[:n_src] if t['shape'] == 'N' else vals.reshape(n_src, t['ncomp'])
+
+    def run_transfers(mc, poly, o, tlist, N0, E0):
+        tr = []
+        for t in tlist:
+            r = dict(t)
+            n_src = None
+            try:
+                where = t['where']          # nodal | elemental
+                direction = t['dir']        # compress | decompress
+                n_src = {('nodal', 'compress'): N0, ('elemental', 'compress'): E0,
+                         ('nodal', 'decompress'): len(o.nodes.data),
+                         ('elemental', 'decompress'): len(o.elements.data)}[(where, direction)]
+                x = make_x(t, n_src)
+                x_before = np.array(x, copy=True)
+                src = poly if direction == 'compress' else o
+                dst = o if direction == 'compress' else poly
+                name1, name2 = 'c20_src_%d' % t['tid'], 'c20_dst_%d' % t['tid']
+                with contextlib.redirect_stdout(buf):
+                    if where == 'nodal':
+                        src.nodal_data.update_data(src.nodes.ids, {name1: x}, allow_overwrite=True)
+                    else:
+                        src.elemental_data.update_data(src.elements.ids, {name1: x}, allow_overwrite=True)
+                    fn = getattr(mc, direction + '_' + where + '_data')
+                    for _ in range(t.get('repeat', 1)):      # same query twice: same answer
+                        fn(name_1=name1, name_2=name2 + '_r%d' % _, kind=t['kind'], knn=t['knn'])
+                    y = (dst.nodal_data if where == 'nodal' else dst.elemental_data)[name2 + '_r0'].data
+                    if t.get('repeat', 1) > 1:
+                        y2 = (dst.nodal_data if where == 'nodal' else dst.elemental_data)[name2 + '_r1'].data
+                        r['repeat_same'] = bool(np.array_equal(np.asarray(y), np.asarray(y2)))
+                    xs = (src.nodal_data if where == 'nodal' else src.elemental_data)[name1].data
+                r['n_src'] = n_src
+                r['x_used'] = [ratio(v) for v in np.asarray(x_before, float).ravel()]
+                r['x_shape'] = list(np.asarray(x).shape)
+                r['source_unchanged'] = bool(np.array_equal(np.asarray(xs, float).ravel(),
+                                                            np.asarray(x_before, float).ravel()))
+                r['y'] = array_out(y)
+                r['y_dtype'] = str(np.asarray(y).dtype)
+            except Exception as e:  # noqa
+                r['error'] = type(e).__name__
+                r['error_msg'] = str(e)[:200]
+                r['n_src'] = n_src
+            r.pop('x', None)
+            tr.append(r)
+        return tr
+
+    def matrices(mc, knns):
+        mats = {}
+        for knn in knns:
+            with contextlib.redirect_stdout(buf):
+                mn = mc.calculate_conversion_matrix_nodal(knn)
+                me = mc.calculate_conversion_matrix_elemental(knn)
+            mats[str(knn)] = {
+                'nodal': {'shape': list(mn.shape), 'rows': [[int(b) for b in r] for r in mn.toarray()]},
+                'elemental': {'shape': list(me.shape), 'rows': [[int(b) for b in r] for r in me.toarray()]}}
+        return mats
+
+    other_mc = None
     for job in jobs.get('runs', []):
         out = {'id': job['id']}
         t1 = time.time()
         try:
             with contextlib.redirect_stdout(buf):
-                base = job['kind'] if job['kind'] in ('hex', 'tet') else 'hex'
-                fd = femio.generate_brick(base, *job['n'])
-                lat = np.rint(fd.nodes.data * np.array(job['n'])).astype(np.int64)
-                cr = job.get('crease')
-                if cr:
-                    # gently creased brick: z scaled by a piecewise linear function of x
-                    # with its kink on the grid line i0; every element face stays planar
-                    lat = np.stack([lat[:, 0] * cr['Dx'], lat[:, 1] * cr['Dy'],
-                                    lat[:, 2] * (cr['D'] + cr['s'] * np.abs(lat[:, 0] - cr['i0']))],
-                                   axis=1)
-                xyz = (lat @ np.array(job['M'], np.int64).T + np.array(job['t'], np.int64))
-                xyz = xyz.astype(np.float64)
-                old_ids = [int(i) for i in fd.nodes.ids]
-                conn = np.array(fd.elements.data, np.int64)
-                etype = job['kind']
-                if etype == 'prism':
-                    # every hex (a..h) -> two prisms split along the same diagonal
-                    conn = np.array([r for (a, b, c, d, e, f, g, h) in conn
-                                     for r in ((a, b, c, e, f, g), (a, c, d, e, g, h))], np.int64)
-                elif etype == 'pyr':
-                    # every hex -> six pyramids on its faces, apex = new centre node
-                    # (mean of the 8 corners: exact dyadic coordinates)
-                    row_of = {i: k for k, i in enumerate(old_ids)}
-                    nxt = max(old_ids) + 1
-                    rows = []
-                    centres = []
-                    for (a, b, c, d, e, f, g, h) in conn:
-                        m = nxt
-                        nxt += 1
-                        centres.append(xyz[[row_of[int(v)] for v in (a, b, c, d, e, f, g, h)]].sum(axis=0) / 8)
-                        for F in ((e, f, g, h), (f, e, a, b), (g, f, b, c), (h, g, c, d), (e, h, d, a),
-                                  (d, c, b, a)):
-                            rows.append(tuple(reversed(F)) + (m,))
-                        old_ids.append(m)
-                    conn = np.array(rows, np.int64)
-                    xyz = np.vstack([xyz, np.array(centres)])
-                xyz = xyz * float(job['scale'])
-                ids = np.array(job['node_ids'], np.int64) if job.get('node_ids') \
-                    else np.array(old_ids, np.int64)
-                # relabel nodes (ids need not be 1..n nor sorted in storage)
-                idmap = dict(zip(old_ids, [int(i) for i in ids]))
-                perm = np.array(job['node_perm'], np.int64) if job.get('node_perm') \
-                    else np.arange(len(ids))
-                new_conn = np.vectorize(idmap.get)(conn)
-                mesh = femio.FEMData(
-                    nodes=femio.FEMAttribute('NODE', ids[perm], xyz[perm]),
-                    elements=femio.FEMElementalAttribute(
-                        'ELEMENT', {etype: femio.FEMAttribute(
-                            etype, np.arange(len(new_conn)) + 1, new_conn)}))
+                mesh = build_mesh(job)
                 poly = mesh.to_polyhedron()
             in_faces = [decode_poly(p)[0] for p in poly.elemental_data['face']['polyhedron'].data]
             out['in_polys'] = in_faces
-            out['in_pos'] = [[ratio(c) for c in row] for row in poly.nodes.data]
+            out['in_pos'] = [[ratio(c) for c in row] for row in np.asarray(poly.nodes.data, np.float64)]
             with contextlib.redirect_stdout(buf):
                 mc = MeshCompressor(fem_data=poly)
                 # the merge step alone, on copies (correspondence of merge_elements)
                 K = max(len(mc.csr[0] - 1) // job['elem_num'], 1)
                 ec = np.arange(len(in_faces), dtype=np.int32)
                 indptr, dat = mcmod.merge_elements(
-                    (mc.csr_raw[0].copy(), mc.csr_raw[1].copy()), mc.node_pos.copy(), ec, K)
+                    (mc.csr_raw[0].copy(), mc.csr_raw[1].copy()),
+                    np.asarray(mc.node_pos, np.float64).copy(), ec, K)
             out['merge_K'] = int(K)
             out['merge_polys'] = [decode_poly(dat[indptr[i]:indptr[i + 1]])[0]
                                   for i in range(len(indptr) - 1)]
             out['merge_elem_conv'] = [int(e) for e in ec]
             with contextlib.redirect_stdout(buf):
+                if job.get('interleave') and other_mc is None:
+                    # a second live compressor on another mesh (class-level state would show)
+                    other = femio.generate_brick('hex', 2, 1, 1).to_polyhedron()
+                    other_mc = MeshCompressor(fem_data=other)
                 ok = mc.compress(elem_num=job['elem_num'], cos_thresh=job['cos_thresh'],
                                  dist_thresh=job['dist_thresh'])
+                if job.get('interleave'):
+                    o_mc = MeshCompressor(fem_data=femio.generate_brick('hex', 2, 2, 1).to_polyhedron())
+                    o_mc.compress(elem_num=1, cos_thresh=0.5, dist_thresh=0.0)
             out['ok'] = bool(ok)
             if ok:
-                o = mc.output_fem_data
-                fdat = o.elemental_data['face']['polyhedron'].data
-                dec = [decode_poly(p) for p in fdat]
-                out['out_polys'] = [d[0] for d in dec]
-                out['out_wellformed'] = all(d[1] for d in dec)
-                out['out_pos'] = [[ratio(c) for c in row] for row in o.nodes.data]
-                out['out_node_ids'] = [int(i) for i in o.nodes.ids]
-                out['out_elem_ids'] = [int(i) for i in o.elements.ids]
-                out['out_conn'] = [[int(v) for v in row] for row in o.elements.data]
-                out['node_conv'] = [int(v) for v in mc.node_conv]
-                out['elem_conv'] = [int(v) for v in mc.elem_conv]
+                o = record_output(mc, out)
                 N0 = len(poly.nodes.data)
                 E0 = len(in_faces)
-                mats = {}
-                for knn in job['knns']:
+                out['mats'] = matrices(mc, job['knns'])
+                out['transfers'] = run_transfers(mc, poly, o, job['transfers'], N0, E0)
+            # ---- history: a second compress() on the same compressor
+            sec = job.get('second')
+            if sec:
+                s2 = {}
+                try:
                     with contextlib.redirect_stdout(buf):
-                        mn = mc.calculate_conversion_matrix_nodal(knn)
-                        me = mc.calculate_conversion_matrix_elemental(knn)
-                    mats[str(knn)] = {
-                        'nodal': {'shape': list(mn.shape),
-                                  'rows': [[int(b) for b in r] for r in mn.toarray()]},
-                        'elemental': {'shape': list(me.shape),
-                                      'rows': [[int(b) for b in r] for r in me.toarray()]}}
-                out['mats'] = mats
-                # ---- transfers
-                tr = []
-                for t in job['transfers']:
-                    r = dict(t)
-                    try:
-                        where = t['where']          # nodal | elemental
-                        direction = t['dir']        # compress | decompress
-                        n_src = {('nodal', 'compress'): N0, ('elemental', 'compress'): E0,
-                                 ('nodal', 'decompress'): len(o.nodes.data),
-                                 ('elemental', 'decompress'): len(o.elements.data)}[(where, direction)]
-                        vals = np.array(t['x'][:n_src * t['ncomp']], np.float64)
-                        if t['shape'] == 'N':
-                            x = vals[:n_src]
-                        else:
-                            x = vals.reshape(n_src, t['ncomp'])
-                        src = poly if direction == 'compress' else o
-                        dst = o if direction == 'compress' else poly
-                        name1, name2 = 'c20_src_%d' % t['tid'], 'c20_dst_%d' % t['tid']
-                        with contextlib.redirect_stdout(buf):
-                            if where == 'nodal':
-                                src.nodal_data.update_data(src.nodes.ids, {name1: x}, allow_overwrite=True)
-                            else:
-                                src.elemental_data.update_data(src.elements.ids, {name1: x},
-                                                               allow_overwrite=True)
-                            fn = getattr(mc, direction + '_' + where + '_data')
-                            fn(name_1=name1, name_2=name2, kind=t['kind'], knn=t['knn'])
-                            y = (dst.nodal_data if where == 'nodal' else dst.elemental_data)[name2].data
-                        r['n_src'] = n_src
-                        r['x_used'] = [ratio(v) for v in np.asarray(x, float).ravel()]
-                        r['x_shape'] = list(np.asarray(x).shape)
-                        r['y'] = array_out(y)
-                    except Exception as e:  # noqa
-                        r['error'] = type(e).__name__
-                        r['error_msg'] = str(e)[:200]
-                        r['n_src'] = n_src
-                    r.pop('x', None)
-                    tr.append(r)
-                out['transfers'] = tr
+                        ok2 = mc.compress(elem_num=sec['elem_num'], cos_thresh=sec['cos_thresh'],
+                                          dist_thresh=sec['dist_thresh'])
+                    s2['refused'] = False
+                    s2['ok'] = bool(ok2)
+                    if ok2:
+                        o2 = record_output(mc, s2)
+                        s2['mats'] = matrices(mc, sec['knns'])
+                        s2['transfers'] = run_transfers(mc, poly, o2, sec['transfers'],
+                                                        len(poly.nodes.data), len(in_faces))
+                except AssertionError:
+                    s2['refused'] = True
+                except Exception as e:  # noqa
+                    s2['refused'] = False
+                    s2['error'] = type(e).__name__ + ': ' + str(e)[:300]
+                out['second'] = s2
         except Exception as e:  # noqa
             out['error'] = type(e).__name__ + ': ' + str(e)[:300]
             out['trace'] = traceback.format_exc()[-1500:]
